@@ -14,6 +14,7 @@
 import AriadneModel.Model.Settings
 import AriadneModel.Model.Pipeline
 import AriadneModel.Proofs.Settings
+import AriadneModel.Proofs.Pipeline
 
 set_option linter.unusedSimpArgs false
 set_option linter.unusedVariables false
@@ -63,14 +64,6 @@ def Expected (env : Env) (s : ClientSettings) : ClientCheck → ConfigError → 
   | .enumsModule, e => e = .badIdentifier s.enumsModuleName
   | .inputTypesModule, e => e = .badIdentifier s.inputTypesModuleName
   | .filesToInclude, e => ∃ f ∈ s.filesToInclude, env.isFile f = false ∧ e = .notFile f
-
-theorem identCheck_some_iff (env : Env) (n : String) :
-    (∃ e, identCheck env n = some e) ↔ validName env n = false := by
-  unfold identCheck; cases validName env n <;> simp
-
-theorem identCheck_eq (env : Env) (n : String) (e : ConfigError) (h : identCheck env n = some e) :
-    e = .badIdentifier n := by
-  unfold identCheck at h; split at h <;> simp_all
 
 /-- a check raises exactly when its constraint is violated -/
 theorem check_raises_iff (env : Env) (s : ClientSettings) (k : ClientCheck) :
@@ -427,22 +420,6 @@ theorem deprecated_section_read (env : Env) (top sec : Dict) (h1 : J.lookup "too
     getSection (.obj top) = .ok (sec, true) := by
   simp [getSection, h1, h2]
 
-theorem parseScalars_missing_type (pre post : List (String × J)) (n : String) (d : List (String × J))
-    (pres : List ScalarData) (hpre : parseScalars pre = .ok pres) (hd : J.lookup "type" d = none) :
-    parseScalars (pre ++ (n, .obj d) :: post) = .error .scalarMissingType := by
-  induction pre generalizing pres with
-  | nil => simp [parseScalars, parseScalar, hd, bind, Except.bind]
-  | cons kv pre ih =>
-    obtain ⟨k, v⟩ := kv
-    simp only [parseScalars, List.cons_append, bind, Except.bind] at hpre ⊢
-    cases hk : parseScalar k v with
-    | error e => simp [hk] at hpre
-    | ok sd =>
-      simp only [hk] at hpre ⊢
-      cases hr : parseScalars pre with
-      | error e => simp [hr] at hpre
-      | ok r => simp [ih r hr]
-
 /-- **scalar without type**: the first scalar table lacking `type` (all earlier ones well-formed)
     makes `get_client_settings` raise `MissingConfiguration("Missing 'type' field ...")` -/
 theorem scalar_without_type_rejected (env : Env) (sec : Dict) (pre post : List (String × J)) (n : String)
@@ -486,22 +463,6 @@ def onlyKnown (sec : Dict) : Dict := sec.filter (fun kv => knownClientKey kv.1)
 
 theorem onlyKnown_idem (sec : Dict) : onlyKnown (onlyKnown sec) = onlyKnown sec := by
   simp [onlyKnown, List.filter_filter]
-
-theorem lookup_dictSet_ne (k k' : String) (v : J) (l : Dict) (h : k ≠ k') :
-    J.lookup k (dictSet k' v l) = J.lookup k l := by
-  induction l with
-  | nil => simp [dictSet, J.lookup, h.symm]
-  | cons kv rest ih =>
-    obtain ⟨k2, v2⟩ := kv
-    by_cases he : (k2 == k') = true
-    · have : k2 = k' := by simpa using he
-      subst this
-      simp [dictSet, J.lookup, h.symm]
-    · have hne : k2 ≠ k' := by simpa using he
-      by_cases hk : k2 = k
-      · subst hk
-        simp [dictSet, J.lookup, h]
-      · simp [dictSet, he, J.lookup, hk, ih, hne]
 
 theorem raw_result_onlyKnown (env : Env) (sec : Dict) :
     (readRawClient env (mkCfg sec)).result = (readRawClient env (mkCfg (onlyKnown sec))).result := by
@@ -595,20 +556,6 @@ theorem keyword_never_valid (env : Env) (n : String) (h : n ∈ Tables.kwlist) :
 
 /-! ## 5. The phase order: nothing is written before `PackageGenerator.generate` reaches `mkdir` -/
 
-/-- **no_write_before_generate** (must), for ALL inputs: whatever makes `main.client` fail in the
-    settings, schema loading, plugin lookup, validity assertion, query loading/validation,
-    `add_operation` or the file-name uniqueness check leaves the effect log empty. -/
-theorem generate_spec (r : ClientRun) (p : Prepared) :
-    ((generate r p).log = [] ∧ ∃ m, (generate r p).result = .error (.generatePre, .codegen "ParsingError" m)) ∨
-    (∃ e, (generate r p).result = .error (.generateWrite, e)) ∨ (∃ fs, (generate r p).result = .ok fs) := by
-  by_cases hd : (!(duplicates (allFileNames r.env p.settings p.resultFiles)).isEmpty) = true
-  · left; simp [generate, hd]
-  · right
-    simp only [generate, hd]
-    generalize runSteps r.codeError _ _ = rs
-    obtain ⟨oe, log⟩ := rs
-    cases oe <;> simp
-
 theorem no_write_before_generate (r : ClientRun) (ph : Phase) (e : PyErr)
     (h : (client r).result = .error (ph, e)) (hph : ph ≠ .generateWrite) : (client r).log = [] := by
   unfold client at h ⊢
@@ -623,119 +570,6 @@ theorem no_write_before_generate (r : ClientRun) (ph : Phase) (e : PyErr)
       exact absurd h.1.symm hph
     · rw [hfs] at h
       cases h
-
-/-- inversion of `prepare`: which phase failed, and that every earlier phase had succeeded -/
-theorem prepare_error_cases (r : ClientRun) (ph : Phase) (e : PyErr) (h : prepare r = .error (ph, e)) :
-    (∃ ce, (getClientSettings r.env r.cfg).result = .error ce ∧ ph = .settings ∧ e = .config ce) ∨
-    (∃ s, (getClientSettings r.env r.cfg).result = .ok s ∧
-      ((loadSchema (s.schemaPath != "") r.schema = .error e ∧ ph = .loadSchema) ∨
-       (∃ sch, loadSchema (s.schemaPath != "") r.schema = .ok sch ∧
-         ((resolvePlugins r.plugins = .error e ∧ ph = .plugins) ∨
-          (resolvePlugins r.plugins = .ok () ∧
-            ((assertValid (processSchema r.plugins sch) = .error e ∧ ph = .assertValid) ∨
-             (assertValid (processSchema r.plugins sch) = .ok () ∧
-               (((s.queriesPath != "") = true ∧ loadQueries r.queries = .error e ∧ ph = .loadQueries) ∨
-                (ph = .addOperation ∧ ((s.queriesPath != "") = true → loadQueries r.queries = .ok ())))))))))) := by
-  unfold prepare at h
-  simp only [bind, Except.bind, pure, Except.pure, throw, throwThe, MonadExceptOf.throw] at h
-  cases h1 : (getClientSettings r.env r.cfg).result with
-  | error ce =>
-    simp only [h1] at h
-    injection h with h; injection h with ha hb
-    exact Or.inl ⟨ce, rfl, ha.symm, hb.symm⟩
-  | ok s =>
-    simp only [h1] at h
-    refine Or.inr ⟨s, rfl, ?_⟩
-    cases h2 : loadSchema (s.schemaPath != "") r.schema with
-    | error e2 =>
-      simp only [h2] at h
-      injection h with h; injection h with ha hb
-      exact Or.inl ⟨by rw [hb], ha.symm⟩
-    | ok sch =>
-      simp only [h2] at h
-      refine Or.inr ⟨sch, rfl, ?_⟩
-      cases h3 : resolvePlugins r.plugins with
-      | error e3 =>
-        simp only [h3] at h
-        injection h with h; injection h with ha hb
-        exact Or.inl ⟨by rw [hb], ha.symm⟩
-      | ok u =>
-        simp only [h3] at h
-        refine Or.inr ⟨rfl, ?_⟩
-        cases h4 : assertValid (processSchema r.plugins sch) with
-        | error e4 =>
-          simp only [h4] at h
-          injection h with h; injection h with ha hb
-          exact Or.inl ⟨by rw [hb], ha.symm⟩
-        | ok u2 =>
-          simp only [h4] at h
-          refine Or.inr ⟨rfl, ?_⟩
-          by_cases hq : (s.queriesPath != "") = true
-          · simp only [hq, if_true] at h
-            cases h5 : loadQueries r.queries with
-            | error e5 =>
-              simp only [h5] at h
-              injection h with h; injection h with ha hb
-              exact Or.inl ⟨hq, by rw [hb], ha.symm⟩
-            | ok u3 =>
-              simp only [h5] at h
-              cases h6 : addOperations s.asyncClient r.queries.ops [] with
-              | error e6 =>
-                simp only [h6] at h
-                injection h with h; injection h with ha hb
-                exact Or.inr ⟨ha.symm, fun _ => rfl⟩
-              | ok fs => simp [h6] at h
-          · simp only [hq] at h
-            cases h6 : addOperations s.asyncClient [] [] with
-            | error e6 =>
-              simp only [h6] at h
-              injection h with h; injection h with ha hb
-              exact Or.inr ⟨ha.symm, fun hq' => absurd hq' hq⟩
-            | ok fs => simp [h6] at h
-
-/-- inversion of a successful `prepare`: every phase before `generate` succeeded -/
-theorem prepare_ok_cases (r : ClientRun) (p : Prepared) (h : prepare r = .ok p) :
-    ∃ s sch, (getClientSettings r.env r.cfg).result = .ok s ∧ loadSchema (s.schemaPath != "") r.schema = .ok sch ∧
-      resolvePlugins r.plugins = .ok () ∧ assertValid (processSchema r.plugins sch) = .ok () ∧
-      ((s.queriesPath != "") = true → loadQueries r.queries = .ok ()) ∧ p.settings = s := by
-  unfold prepare at h
-  simp only [bind, Except.bind, pure, Except.pure, throw, throwThe, MonadExceptOf.throw] at h
-  cases h1 : (getClientSettings r.env r.cfg).result with
-  | error ce => simp [h1] at h
-  | ok s =>
-    simp only [h1] at h
-    cases h2 : loadSchema (s.schemaPath != "") r.schema with
-    | error e2 => simp [h2] at h
-    | ok sch =>
-      simp only [h2] at h
-      cases h3 : resolvePlugins r.plugins with
-      | error e3 => simp [h3] at h
-      | ok u =>
-        simp only [h3] at h
-        cases h4 : assertValid (processSchema r.plugins sch) with
-        | error e4 => simp [h4] at h
-        | ok u2 =>
-          simp only [h4] at h
-          refine ⟨s, sch, rfl, h2, rfl, h4, ?_⟩
-          by_cases hq : (s.queriesPath != "") = true
-          · simp only [hq, if_true] at h
-            cases h5 : loadQueries r.queries with
-            | error e5 => simp [h5] at h
-            | ok u3 =>
-              simp only [h5] at h
-              cases h6 : addOperations s.asyncClient r.queries.ops [] with
-              | error e6 => simp [h6] at h
-              | ok fs =>
-                simp only [h6] at h
-                injection h with h
-                exact ⟨fun _ => rfl, by rw [← h]⟩
-          · simp only [hq] at h
-            cases h6 : addOperations s.asyncClient [] [] with
-            | error e6 => simp [h6] at h
-            | ok fs =>
-              simp only [h6] at h
-              injection h with h
-              exact ⟨fun hq' => absurd hq' hq, by rw [← h]⟩
 
 /-- the phases `prepare` can fail in are exactly the six before `generate` -/
 theorem prepare_phase (r : ClientRun) (ph : Phase) (e : PyErr) (h : prepare r = .error (ph, e)) :
@@ -767,34 +601,6 @@ theorem schema_no_write_on_failure (r : SchemaRun) (x : Phase × PyErr)
           | none => simp [h5] at h
 
 /-! ## 6. `assume_valid` makes the validity assertion vacuous (proved negative, finding C17-F3) -/
-
-theorem codeAssumeValid_true : codeAssumeValid = true := rfl
-
-theorem loadSchema_ok (fromPath : Bool) (o : SchemaOracle) (sch : SchemaState) (h : loadSchema fromPath o = .ok sch) :
-    sch.cache = some 0 ∧ sch.hasQuery = o.hasQuery ∧ sch.hasMutation = o.hasMutation ∧ o.buildError = none := by
-  unfold loadSchema at h
-  simp only [bind, Except.bind, pure, Except.pure, throw, throwThe, MonadExceptOf.throw, codeAssumeValid, if_true] at h
-  have key : ∀ (x : Except PyErr SchemaState),
-      x = (match o.buildError with
-        | some _ => Except.error (PyErr.raw "TypeError")
-        | none => Except.ok { cache := some 0, trueErrors := o.trueErrors, hasQuery := o.hasQuery, hasMutation := o.hasMutation }) →
-      x = .ok sch → sch.cache = some 0 ∧ sch.hasQuery = o.hasQuery ∧ sch.hasMutation = o.hasMutation ∧ o.buildError = none := by
-    intro x hx hs
-    cases hb : o.buildError with
-    | some m => simp [hb] at hx; rw [hx] at hs; cases hs
-    | none => simp [hb] at hx; rw [hx] at hs; injection hs with hs; subst hs; simp
-  cases fromPath with
-  | true =>
-    simp only [if_true] at h
-    cases hl : loadSource o.src with
-    | error e => simp [hl] at h
-    | ok u => simp only [hl] at h; exact key _ rfl h
-  | false =>
-    simp only [Bool.false_eq_true, if_false] at h
-    cases hr : o.remote with
-    | ok => simp only [hr] at h; exact key _ rfl h
-    | introspectionError m => simp [hr] at h
-    | raw c => simp [hr] at h
 
 /-- **assert_valid_is_vacuous**: a schema that came out of `get_graphql_schema_from_path/_from_url`
     (built with `assume_valid=True`) passes `assert_valid_schema` however many errors validation would
@@ -900,13 +706,6 @@ def wMixinFragment : ClientRun :=
   { wBase with queries := { wBase.queries with
       frags := [{ name := "UF", genError := some (.codegen "ParsingError" "Required arguments (from, import) not found.") }] } }
 
-def isOk {ε α : Type} : Except ε α → Bool
-  | .ok _ => true
-  | .error _ => false
-
-theorem isOk_iff {ε α : Type} (x : Except ε α) : isOk x = true ↔ ∃ a, x = .ok a := by
-  cases x <;> simp [isOk]
-
 theorem inDomain_of_accepted (r : ClientRun) (h : isOk (getClientSettings r.env r.cfg).result = true)
     (hr : r.schema.remote = .ok) (hp : r.plugins.replaces = none) : InDomain r :=
   ⟨fun e he => (by rw [he] at h; cases h), fun c hc => (by rw [hr] at hc; cases hc), hp⟩
@@ -957,42 +756,6 @@ theorem NoSideEffects_full_false : ¬ NoSideEffects_full := by
   revert this
   decide
 
-theorem runSteps_clean (codeError : GenStep → Option PyErr) (hc : ∀ st, codeError st = none)
-    (steps : List (GenStep × String × Option PyErr)) (hs : ∀ st ∈ steps, st.2.2 = none) (log : List Effect) :
-    (runSteps codeError steps log).1 = none := by
-  induction steps generalizing log with
-  | nil => rfl
-  | cons st rest ih =>
-    obtain ⟨g, f, i⟩ := st
-    have hi : i = none := hs (g, f, i) (by simp)
-    subst hi
-    simp only [runSteps, hc]
-    exact ih (fun st hst => hs st (by simp [hst])) _
-
-theorem plannedSteps_clean (env : Env) (s : ClientSettings) (sch : SchemaState) (files : List String) (frags : List FragInfo)
-    (hf : fragmentsStep frags = none ∨ fragmentsStep frags = some none) :
-    ∀ st ∈ plannedSteps env s sch files frags, st.2.2 = none := by
-  have hall : (plannedSteps env s sch files frags).all (fun st => st.2.2.isNone) = true := by
-    unfold plannedSteps
-    rcases hf with hf | hf <;> simp only [hf] <;>
-      cases s.enableCustomOperations <;> cases sch.hasQuery <;> cases sch.hasMutation <;>
-      simp [List.all_append, List.all_map, Function.comp_def]
-  intro st hst
-  have := List.all_eq_true.mp hall st hst
-  cases h : st.2.2 with
-  | none => rfl
-  | some e => simp [h] at this
-
-theorem fragmentsStep_of_no_trigger (q : QueriesOracle) (h : trigFragmentGenError q = false) :
-    fragmentsStep q.frags = none ∨ fragmentsStep q.frags = some none := by
-  unfold trigFragmentGenError at h
-  cases hf : fragmentsStep q.frags with
-  | none => exact Or.inl rfl
-  | some x =>
-    cases x with
-    | none => exact Or.inr rfl
-    | some e => simp [hf] at h
-
 theorem generate_no_late_error (r : ClientRun) (p : Prepared) (ht : trigFragmentGenError r.queries = false)
     (hc : ∀ st, r.codeError st = none) (e : PyErr) : (generate r p).result ≠ .error (.generateWrite, e) := by
   by_cases hd : (!(duplicates (allFileNames r.env p.settings p.resultFiles)).isEmpty) = true
@@ -1030,101 +793,6 @@ theorem NoSideEffects_partial (r : ClientRun) (ht : trigFragmentGenError r.queri
 example : trigFragmentGenError wBase.queries = false ∧ ∀ st, wBase.codeError st = none := ⟨by decide, fun _ => rfl⟩
 
 /-! ### the part of C17 that holds -/
-
-theorem loadSource_ok_iff (s : Source) :
-    loadSource s = .ok () ↔ s.files ≠ [] ∧ ∀ f ∈ s.files, f.2 = true := by
-  unfold loadSource
-  cases hf : s.files.find? (fun f => !f.2) with
-  | some f =>
-    have hm := List.mem_of_find?_eq_some hf
-    have hb := List.find?_some hf
-    simp only [Bool.not_eq_true'] at hb
-    constructor
-    · intro h; cases h
-    · rintro ⟨_, hall⟩; have := hall f hm; simp [hb] at this
-  | none =>
-    have hall : ∀ f ∈ s.files, f.2 = true := by
-      intro f hfm
-      have := List.find?_eq_none.mp hf f hfm
-      simpa using this
-    cases hl : s.files with
-    | nil => simp
-    | cons a l => simp [hl] at hall ⊢; exact hall
-
-theorem loadSource_error_typed (s : Source) (e : PyErr) (h : loadSource s = .error e) (hne : s.files ≠ []) :
-    e.typed = true := by
-  unfold loadSource at h
-  cases hf : s.files.find? (fun f => !f.2) with
-  | some f => simp [hf] at h; subst h; rfl
-  | none =>
-    simp only [hf] at h
-    cases hl : s.files with
-    | nil => exact absurd hl hne
-    | cons a l => simp [hl] at h
-
-theorem loadSchema_true_source (o : SchemaOracle) (sch : SchemaState) (h : loadSchema true o = .ok sch) :
-    loadSource o.src = .ok () := by
-  unfold loadSchema at h
-  simp only [bind, Except.bind, if_true] at h
-  cases hl : loadSource o.src with
-  | error e => simp [hl] at h
-  | ok u => rfl
-
-theorem loadSchema_error_typed (fromPath : Bool) (o : SchemaOracle) (e : PyErr) (h : loadSchema fromPath o = .error e)
-    (hfiles : fromPath = true → o.src.files ≠ []) (hremote : ∀ c, o.remote ≠ .raw c) (hbuild : o.buildError = none) :
-    e.typed = true := by
-  unfold loadSchema at h
-  simp only [bind, Except.bind, pure, Except.pure, throw, throwThe, MonadExceptOf.throw, hbuild] at h
-  cases fromPath with
-  | true =>
-    simp only [if_true] at h
-    cases hl : loadSource o.src with
-    | error e' =>
-      simp only [hl] at h
-      injection h with h
-      subst h
-      exact loadSource_error_typed _ _ hl (hfiles rfl)
-    | ok u => simp [hl] at h
-  | false =>
-    simp only [Bool.false_eq_true, if_false] at h
-    cases hr : o.remote with
-    | ok => simp [hr] at h
-    | introspectionError m => simp [hr] at h; subst h; rfl
-    | raw c => exact absurd hr (hremote c)
-
-theorem resolvePlugins_error_typed (p : PluginsOracle) (e : PyErr) (h : resolvePlugins p = .error e) : e.typed = true := by
-  unfold resolvePlugins at h
-  split at h
-  · injection h with h; subst h; rfl
-  · cases h
-
-theorem loadQueries_ok (q : QueriesOracle) (h : loadQueries q = .ok ()) :
-    loadSource q.src = .ok () ∧ q.validationErrors = [] := by
-  unfold loadQueries at h
-  simp only [bind, Except.bind, pure, Except.pure, throw, throwThe, MonadExceptOf.throw] at h
-  cases hl : loadSource q.src with
-  | error e => simp [hl] at h
-  | ok u =>
-    simp only [hl] at h
-    cases hv : q.validationErrors with
-    | nil => exact ⟨rfl, rfl⟩
-    | cons a l => simp [hv] at h
-
-theorem loadQueries_error_typed (q : QueriesOracle) (e : PyErr) (h : loadQueries q = .error e) (hne : q.src.files ≠ []) :
-    e.typed = true := by
-  unfold loadQueries at h
-  simp only [bind, Except.bind, pure, Except.pure, throw, throwThe, MonadExceptOf.throw] at h
-  cases hl : loadSource q.src with
-  | error e' =>
-    simp only [hl] at h
-    injection h with h
-    subst h
-    exact loadSource_error_typed _ _ hl hne
-  | ok u =>
-    simp only [hl] at h
-    split at h
-    · cases h
-    · injection h with h; subst h; rfl
 
 theorem documented_of_no_violation (env : Env) (s : ClientSettings) (h : ∀ k, ¬ Violates env s k)
     (hf : validName env s.fragmentsModuleName = true)
